@@ -378,9 +378,19 @@ def r_delay(E):
             "shifted by its own step as well", rel, inc.lineno, fn.name))
     res.instances += 1
     place = [s for s in ast.walk(inner) if isinstance(s, ast.AugAssign)]
-    cond = next((s for s in inner.body if isinstance(s, ast.If)), None)
-    if len(place) != 1 or cond is None or "self" not in norm(cond.test) or not isinstance(cond.test, ast.Compare) \
-            or not isinstance(cond.test.ops[0], ast.Eq):
+    # the placement runs exactly for the jobs of the step that are this job: `if job == self:` around it, or
+    # `if job != self: continue` before it
+    is_self_test = False
+    if len(place) == 1:
+        from ..astutil import path_conditions, positive_atoms
+        true, false = positive_atoms(path_conditions(place[0], fn))
+        jv = norm(inner.target)
+        for atoms, want in ((true, ast.Eq), (false, ast.NotEq)):
+            for t in atoms:
+                if isinstance(t, ast.Compare) and len(t.ops) == 1 and isinstance(t.ops[0], want) \
+                        and {norm(t.left), norm(t.comparators[0])} == {jv, "self"}:
+                    is_self_test = True
+    if len(place) != 1 or not is_self_test:
         res.undecided.append("placement shape not recognised")
     else:
         p = place[0]
@@ -1090,14 +1100,29 @@ def r_tzreplace(E):
             fn = c
             while fn is not None and not isinstance(fn, ast.FunctionDef):
                 fn = getattr(fn, "_parent", None)
+            # the conditions under which the call runs establish that the receiver is naive
+            from ..astutil import path_conditions
+            from ..paths import path_formula, implies, parse
+            st = c
+            while st is not None and not isinstance(st, ast.stmt):
+                st = getattr(st, "_parent", None)
             guarded = False
-            x = c
-            while x is not None and x is not fn:
-                par = getattr(x, "_parent", None)
-                if isinstance(par, ast.If) and any(x is s or any(y is x for y in ast.walk(s)) for s in par.body):
-                    if norm(par.test) == f"{recv}.tzinfo is None":
-                        guarded = True
-                x = par
+            if st is not None and fn is not None:
+                conds = list(path_conditions(st, fn))
+                # a conditional expression `x if x.tzinfo is not None else x.replace(…)` guards its own arms
+                x = c
+                while x is not None and x is not st:
+                    par = getattr(x, "_parent", None)
+                    if isinstance(par, ast.IfExp):
+                        if x is par.body:
+                            conds.append((par.test, True))
+                        elif x is par.orelse:
+                            conds.append((par.test, False))
+                    x = par
+                try:
+                    guarded = implies(path_formula(conds, fn), parse(f"{recv}.tzinfo is None"))
+                except SyntaxError:
+                    guarded = False
             q = fn.name if fn is not None else "<module>"
             if not guarded:
                 res.findings.append(Finding(
@@ -1107,7 +1132,7 @@ def r_tzreplace(E):
                     f"(or a local-time index is compared with a UTC date)", rel, c.lineno, q))
             elif len(res.samples) < 3:
                 res.samples.append({"site": f"{rel}:{c.lineno} {q}", "call": norm(c)[:70], "verdict": "receiver tested naive"})
-    res.floor = 2
+    res.floor = 1     # two sites today (min and max date of a naive index); one if they share a helper
     return res
 
 
@@ -1320,45 +1345,60 @@ def r_noop(E):
             lp = getattr(lp, "_parent", None)
         if lp is not None:
             dropped |= {x.id for x in ast.walk(lp.iter) if isinstance(x, ast.Name)}
-    skips = [n for n in ast.walk(fn) if isinstance(n, ast.If) and any(
-        isinstance(c.func, ast.Attribute) and c.func.attr == "append" and isinstance(c.func.value, ast.Name)
-        and c.func.value.id in dropped for s_ in n.body for c in _calls(s_))]
+    marks = [n for n in ast.walk(fn) if isinstance(n, ast.Expr) and isinstance(n.value, ast.Call)
+             and isinstance(n.value.func, ast.Attribute) and n.value.func.attr == "append"
+             and isinstance(n.value.func.value, ast.Name) and n.value.func.value.id in dropped]
     res.instances += 1
-    if len(skips) != 1:
+    if len(marks) != 1:
         res.undecided.append("parse_changes_list: skip decision not found")
         return res
-    t = skips[0].test
-    p = [norm(x) for x in (fn.args.args[1:])]
-    # resolve a local flag to its definitions
-    exprs = [t]
-    if isinstance(t, ast.Name):
-        exprs = [n.value for n in ast.walk(fn) if isinstance(n, ast.Assign) and norm(n.targets[0]) == t.id]
     # the two names bound to a change by the loop: `old_value, new_value = self.changes_list[index]`
     pair = None
-    for a in ast.walk(fn):
-        if isinstance(a, (ast.Assign, ast.For)):
-            t = a.targets[0] if isinstance(a, ast.Assign) else a.target
-            src = a.value if isinstance(a, ast.Assign) else a.iter
-            if isinstance(t, ast.Tuple) and len(t.elts) == 2 and all(isinstance(x, ast.Name) for x in t.elts) \
-                    and "changes_list" in norm(src):
-                pair = {t.elts[0].id, t.elts[1].id}
+    for a_ in ast.walk(fn):
+        if isinstance(a_, (ast.Assign, ast.For)):
+            t = a_.targets[0] if isinstance(a_, ast.Assign) else a_.target
+            if isinstance(t, ast.Tuple) and len(t.elts) == 2 and all(isinstance(x, ast.Name) for x in t.elts):
+                src = a_.value if isinstance(a_, ast.Assign) else a_.iter
+                if "changes_list" in norm(src) or (isinstance(src, ast.Name) and any(
+                        isinstance(l, ast.For) and src.id in {y.id for y in ast.walk(l.target) if isinstance(y, ast.Name)}
+                        and "changes_list" in norm(l.iter) for l in ast.walk(fn))):
+                    pair = [t.elts[0].id, t.elts[1].id]
     if pair is None:
         res.undecided.append("parse_changes_list: the (old, new) pair of a change is not bound by a tuple assignment")
         return res
-    ok_shape = lambda e: isinstance(e, ast.Compare) and len(e.ops) == 1 and isinstance(e.ops[0], ast.Eq) and \
-        {norm(e.left), norm(e.comparators[0])} == pair
-    bad = [e for e in exprs if not ok_shape(e)]
-    if bad:
+    # the conditions under which a change is marked for dropping (within one iteration, raise guards aside) must
+    # amount to `old == new`
+    from ..astutil import path_conditions, positive_atoms
+    from ..paths import path_formula, implies, parse
+    conds = [(t, pol) for t, pol in path_conditions(marks[0], fn)]
+    F = path_formula(conds, fn)
+    eq = parse(f"{pair[0]} == {pair[1]}")
+    if not implies(F, eq):
+        true, false = positive_atoms(conds)
+        cand = [t for t in true + false if any(isinstance(x, ast.Name) and x.id in pair for x in ast.walk(t))
+                and not (isinstance(t, ast.Call) and norm(t.func) == "isinstance")
+                and not (isinstance(t, ast.Compare) and isinstance(t.ops[0], (ast.Is, ast.IsNot)))]
+        # a decision taken through a local flag (`unchanged = …` on two arms; `if unchanged:`): look at what it is set to
+        for t in true + false:
+            if isinstance(t, ast.Name):
+                for d in ast.walk(fn):
+                    if isinstance(d, ast.Assign) and any(isinstance(x, ast.Name) and x.id == t.id for x in d.targets):
+                        v = d.value
+                        is_eq = isinstance(v, ast.Compare) and len(v.ops) == 1 and isinstance(v.ops[0], ast.Eq) \
+                            and {norm(v.left), norm(v.comparators[0])} == set(pair)
+                        if not is_eq:
+                            cand.append(v)
+        bad = cand[-1] if cand else marks[0]
         coarse = any(isinstance(x, ast.Compare) and isinstance(x.ops[0], (ast.In, ast.NotIn)) or
-                     (isinstance(x, ast.Call) and norm(x.func) in ("len", "set", "all", "any", "sorted")) for e in bad for x in ast.walk(e))
+                     (isinstance(x, ast.Call) and norm(x.func) in ("len", "set", "all", "any", "sorted")) for x in ast.walk(bad))
         if coarse:
             res.findings.append(Finding(
                 "R-NOOP", "skip test coarser than equality",
-                f"parse_changes_list skips a change when `{norm(bad[0])[:90]}`: that holds for lists that differ in order "
+                f"parse_changes_list skips a change when `{norm(bad)[:90]}`: that holds for lists that differ in order "
                 f"or multiplicity, so `uj.uj_steps = [s3, s1, s2]` or `step.jobs = [j1, j1]` is silently ignored (forward "
-                f"links, reverse look-ups and footprints keep the old list)", rel, bad[0].lineno, fn.name))
+                f"links, reverse look-ups and footprints keep the old list)", rel, bad.lineno, fn.name))
         else:
-            res.undecided.append(f"parse_changes_list: skip test `{norm(bad[0])[:60]}` not recognised")
+            res.undecided.append(f"parse_changes_list: skip test `{norm(bad)[:60]}` not recognised")
     # the `==` of that test is, for list links, the built-in list's: element-wise, order and multiplicity sensitive.
     # An __eq__ of the link-list class that compares sets / sorted ids / lengths makes the same test coarser
     res.instances += 1
@@ -1411,17 +1451,26 @@ def r_rule_txn(E):
                 isinstance(t, ast.Attribute) and isinstance(t.value, ast.Name) and t.value.id == "self" and t.attr == x
                 for t in n.targets)]
             res.instances += 1
-            for r in raises:
-                early = [w for w in writes if w.lineno < r.lineno and not _exclusive(w, r, f)]
-                if early:
-                    key = f"{k}.{m} assigns self.{x} before raising"
-                    if not any(fd.key == key for fd in res.findings):
-                        res.findings.append(Finding(
-                            "R-RULE-TXN", key,
-                            f"{k}.{m} assigns self.{x} (line {early[0].lineno}) and validates afterwards (raise at line "
-                            f"{r.lineno}): when the edit is refused the invalid value stays installed — it is not in the "
-                            f"list of recomputed values the failed update restores — and the next edit computes from it",
-                            pm.path_of(k), early[0].lineno, f"{k}.{m}"))
+            # a path on which the attribute is assigned and a raise is reached afterwards
+            from ..paths import enumerate_paths
+            wset = {id(w) for w in writes}
+            early = None
+            for path in enumerate_paths(f, lambda n: isinstance(n, ast.Raise) or id(n) in wset):
+                if path.end != "raise":
+                    continue
+                done = [st for st in path.stmts[:-1] for y in ast.walk(st) if id(y) in wset]
+                if done:
+                    early = (done[0], path.stmts[-1])
+                    break
+            if early:
+                key = f"{k}.{m} assigns self.{x} before raising"
+                if not any(fd.key == key for fd in res.findings):
+                    res.findings.append(Finding(
+                        "R-RULE-TXN", key,
+                        f"{k}.{m} assigns self.{x} (line {early[0].lineno}) and validates afterwards (raise at line "
+                        f"{early[1].lineno}): when the edit is refused the invalid value stays installed — it is not in the "
+                        f"list of recomputed values the failed update restores — and the next edit computes from it",
+                        pm.path_of(k), early[0].lineno, f"{k}.{m}"))
     res.floor = 5
     return res
 
